@@ -78,8 +78,15 @@ def check(rec, kind, idx, rng, tier):
     if zero_target:
         # 0 as the explicit target on a mostly non-zero raster (the halo outside the raster must not look like a target)
         img = np.where(rng.random((H, W)) < 0.08, 0, rng.integers(1, 5, (H, W))).astype(img.dtype)
+        if rng.random() < 0.4:
+            # land (1) / water (0) mask with whole regions of water: distance to water
+            img = np.ones((H, W), dtype=img.dtype); img[:, :int(rng.integers(1, W))] = 0
+            if rng.random() < 0.5: img = img.T.copy() if img.T.shape == (H, W) else img[::-1].copy()
         tvals = [0.0] if rng.random() < 0.6 else [0.0, 3.0]
         geom['x0'] = 0.0 if rng.random() < 0.7 else geom['x0']; geom['y0'] = 0.0 if rng.random() < 0.7 else geom['y0']
+    elif rng.random() < 0.12:
+        # integer ids that float32 cannot hold, as explicit targets
+        img = np.where(img != 0, 2 ** 24 + 1 + 2 * (img.astype('int64') % 3), 0).astype('int64'); tvals = [float(2 ** 24 + 1), float(2 ** 24 + 3)]; rec.cls('targets.int_above_2^24')
     elif rng.random() < 0.25:
         tvals = [float(v) for v in rng.choice([0, 1, 2, 3, 4, 7], size=int(rng.integers(1, 3)), replace=False)]      # 0 is a legal explicit target
     fname = str(rng.choice(['proximity', 'allocation', 'direction']))
